@@ -83,7 +83,8 @@ def runNav (j : Json) : R (Json × Json) := do
     let mut ss : Array Json := #[]
     for oj in ops do
       let op ← opOfJson oj
-      let out := exec ⟨fl, false, noFaults⟩ 64 op s
+      let φ ← faultsOfJson oj
+      let out := exec ⟨fl, false, φ⟩ 64 op s
       s := out.f
       let ts := s.roots.map (s.toTree (s.n + 1))
       let (cm, cs) := caJ ts tups
